@@ -59,6 +59,11 @@ func (server *Server) registerCoreExecutors() {
 			if err != nil {
 				return nil, err
 			}
+			// The handler takes an empty argument for no argument: PING "" is answered
+			// here with the empty bulk string, as Redis does.
+			if len(arg) == 0 {
+				return NewBulkMessage(arg), nil
+			}
 		}
 		return server.systemCommandHandler.Ping(conn, arg)
 	})
